@@ -15,9 +15,10 @@ Definition cchecks_A (T : tables) (v : list (list val)) (c : scalars) : res unit
   sanityCheckProtocolVersions_raises T c.
 
 Definition cstep_versions (v : list (list val)) (c : scalars) : res (list (list val)) :=
-  if ver_lt (maxVersion c) (3, 4)
-  then match filter_lt34 (nth F_versions v []) with Ok l => Ok (lupd v F_versions l) | Err e => Err e end
-  else Ok v.
+  match filter_range (minVersion c) (maxVersion c) (nth F_versions v []) with
+  | Ok l => Ok (lupd v F_versions l)
+  | Err e => Err e
+  end.
 
 Definition cstep_mac (v0 v1 : list (list val)) (c : scalars) : list (list val) :=
   if ver_lt (maxVersion c) (3, 3) then lupd v1 F_macNames (filter keep_old_mac (nth F_macNames v0 [])) else v1.
@@ -127,14 +128,13 @@ Proof.
                \/ exists e, step_versions h s = Err e /\ cstep_versions (lists h s) (sc s) = Err e).
   { unfold step_versions, cstep_versions.
     rewrite G_lists by (rewrite Len; unfold NF, F_versions; lia).
-    destruct (ver_lt (maxVersion (sc s)) (3, 4)).
-    - destruct (filter_lt34 (nth F_versions (lists h s) [])) as [l|e]; [|right; exists e; auto].
-      left. unfold halloc.
-      destruct (rebind_lists h (h ++ [l]) s F_versions l W ltac:(unfold NF, F_versions; lia)
-                  ltac:(rewrite app_length; cbn; lia) (frame_alloc h l) (hget_app_new h l)) as [A B].
-      exists (h ++ [l])%list, (set_loc s F_versions (List.length h)), (lupd (lists h s) F_versions l).
-      repeat split; auto; apply (frame_alloc h l).
-    - left. exists h, s, (lists h s). repeat split; auto. }
+    destruct (filter_range (minVersion (sc s)) (maxVersion (sc s)) (nth F_versions (lists h s) [])) as [l|e];
+      [|right; exists e; auto].
+    left. unfold halloc.
+    destruct (rebind_lists h (h ++ [l]) s F_versions l W ltac:(unfold NF, F_versions; lia)
+                ltac:(rewrite app_length; cbn; lia) (frame_alloc h l) (hget_app_new h l)) as [A B].
+    exists (h ++ [l])%list, (set_loc s F_versions (List.length h)), (lupd (lists h s) F_versions l).
+    repeat split; auto; apply (frame_alloc h l). }
   destruct S1 as [[h1 [o1 [v1 [E1 [E1' [V1 [C1 [W1 F1]]]]]]]]|[e [E1 E1']]]; rewrite E1, E1'; [|reflexivity].
   rewrite V1, C1.
   destruct (sanityCheckExtensions T v1 (sc s)); [|reflexivity].
